@@ -129,7 +129,7 @@ def plain_config(rng):
 
 
 def run_cli(args, env_seed, cwd):
-    env = dict(os.environ, PYTHONPATH="/repo/src:/verif", PYTHONHASHSEED=str(env_seed))
+    env = dict(os.environ, PYTHONPATH=core.REPO + "/src:" + core.ROOT, PYTHONHASHSEED=str(env_seed))
     p = subprocess.run([PY, "-m", "xstate_statemachine.cli", "generate-template"] + args, cwd=cwd, env=env, capture_output=True, text=True, timeout=120)
     return p.returncode, (p.stdout + p.stderr)[-600:]
 
@@ -178,7 +178,7 @@ def gen_case(args):
             res["problems"].append(("check-reports-drift", "--check on freshly generated output exits %d: %s" % (rc3, log3[-200:])))
         # import in a fresh process, build, extract
         logic_mod = [f[:-3] for f in files if f.endswith("_logic.py")] or [files[0][:-3]]
-        env = dict(os.environ, PYTHONPATH="/repo/src:/verif", PYTHONHASHSEED="44")
+        env = dict(os.environ, PYTHONPATH=core.REPO + "/src:" + core.ROOT, PYTHONHASHSEED="44")
         p = subprocess.run([PY, "-m", "harness.gen_driver", out1, logic_mod[0], template, src], cwd="/verif", env=env, capture_output=True, text=True, timeout=120)
         line = p.stdout.strip().splitlines()[-1] if p.stdout.strip() else ""
         try:
